@@ -26,9 +26,9 @@ SORTING = {'numpy.sort', 'numpy.unique', 'numpy.argsort', 'builtins.sorted', 'nu
 
 
 def run(ctx):
-    rule_index_space(ctx, 'C17.R1')
-    rule_provenance(ctx, 'C17.R2')
-    rule_one_claimant(ctx, 'C17.R3')
+    ctx.rule(rule_index_space, 'C17.R1')
+    ctx.rule(rule_provenance, 'C17.R2')
+    ctx.rule(rule_one_claimant, 'C17.R3')
 
 
 def _space(t, param):
@@ -61,6 +61,7 @@ def rule_index_space(ctx, rid):
             bad = 'unexpected return shape %s' % show(v)[:60]
             continue
         inds = v[1][1]
+        n_here = 0
         wheres = [t for t in subterms(inds) if t[0] == 'call' and t[1] in ('numpy.where', 'numpy.nonzero',
                                                                              'numpy.flatnonzero')]
         for w in wheres:
@@ -69,27 +70,24 @@ def rule_index_space(ctx, rid):
                 for side in (cnd[2], cnd[3]):
                     sp = _space(side, param)
                     if sp is not None:
-                        n += 1
+                        n_here += 1
                         if sp == 'sorted':
                             bad = ('np.where(%s == v) is computed on the sorted copy: the positions are ranks in '
                                    'sorted order, but the caller uses them as row indices of the unsorted column'
                                    % show(side)[:40])
-    if not bad and n == 0:
         # index sets built from positions (np.arange / np.split / np.flatnonzero of the run mask) are ranks in the
-        # sorted copy unless they are composed with np.argsort of the argument
-        for e in exits:
-            v = e.value
-            if v[0] == 'tuple' and len(v[1]) == 2:
-                inds = v[1][1]
-                pos = [t for t in subterms(inds) if t[0] == 'call' and t[1] in ('numpy.arange',)]
-                srt = [t for t in subterms(inds) if t[0] == 'call' and t[1] == 'numpy.argsort'
-                       and t[2] and _space(t[2][0], param) == 'rows']
-                if pos and not srt:
-                    bad = ('the index sets are slices of np.arange(n), i.e. positions in the sorted copy, not row '
-                           'numbers of the argument (no np.argsort of the argument maps them back)')
-                    n += 1
-                elif srt:
-                    n += 1
+        # sorted copy unless they are composed with np.argsort of the argument - checked on every return path
+        pos = [t for t in subterms(inds) if t[0] == 'call' and t[1] in ('numpy.arange', 'numpy.split', 'numpy.array_split')]
+        srt = [t for t in subterms(inds) if t[0] == 'call' and t[1] == 'numpy.argsort'
+               and t[2] and _space(t[2][0], param) == 'rows']
+        if pos and not srt and not any(t[1] == 'numpy.where' for t in wheres if _space(t[2][0][2], param) == 'rows'
+                                       if t[2][0][0] == 'cmp'):
+            bad = ('on one path the index sets are pieces of np.arange(n), i.e. positions in the sorted copy, not row '
+                   'numbers of the argument (no np.argsort of the argument maps them back)')
+            n_here += 1
+        elif srt:
+            n_here += 1
+        n += n_here
     if bad:
         ctx.violation(rid, fi, c, bad, expected='where(<argument in original order> == v)', found=bad)
     elif n == 0:
@@ -152,6 +150,9 @@ def rule_provenance(ctx, rid):
         if v[0] == 'tuple' and len(v[1]) == 2 and v[1][0][0] == 'sub' and v[1][0][1][0] == 'call' \
                 and v[1][0][1][1] == 'numpy.where' and v[1][0][1][2][0][0] == 'cmp':
             fin = v[1][0][1][2][0][2]
+        if fin is not None and fin[0] == 'call' and fin[1] == 'numpy.where' and len(fin[2]) == 3 and fin[2][2] == C(-1):
+            # np.where(good, W, -1)  ==  (-1 vector)[good] = W[good]
+            fin = ('setitem', ('call', 'numpy.full', (C(0), C(-1)), ()), fin[2][0], ('sub', fin[2][1], fin[2][0]))
         if fin is not None and fin[0] == 'setitem' and fin[1][0] == 'call' and fin[1][1] == 'numpy.full' \
                 and len(fin[1][2]) >= 2 and fin[1][2][1] == C(-1):
             mask, val = fin[2], fin[3]
@@ -196,18 +197,25 @@ def rule_provenance(ctx, rid):
         ctx.passed(rid, fi, c2)
     else:
         ctx.violation(rid, fi, c2, 'returned %s' % show(v)[:120])
-    q = [t for e in exits[:1] for t in subterms(('tuple', tuple(x for x in e.state.env.values() if isinstance(x, tuple))))
-         if t[0] == 'meth' and t[1] == 'query']
-    ok3 = False
-    for t in q:
-        kw = dict(t[4])
-        if kw.get('k') == S('K') and kw.get('distance_upper_bound') == S('distance_upper_bound'):
-            ok3 = True
+    # on every return path the neighbour table (distances and indices) is the cKDTree query with the caller's K and
+    # bound: another source (brute force on squared distances, a cached table) has its own conventions
+    ok3 = True
+    why3 = None
+    for e in exits:
+        q = [t for t in subterms(('tuple', (e.value,) + tuple(x for x in e.state.env.values() if isinstance(x, tuple))))
+             if t[0] == 'meth' and t[1] == 'query']
+        good = [t for t in q if dict(t[4]).get('k', t[3][1] if len(t[3]) > 1 else None) == S('K')
+                and dict(t[4]).get('distance_upper_bound') == S('distance_upper_bound')
+                and t[2][0] == 'call' and t[2][1].endswith('cKDTree')]
+        if not good:
+            ok3 = False
+            why3 = 'a path builds the neighbour table without cKDTree(y).query(x, k=K, distance_upper_bound=...): %s' \
+                % (show(q[0])[:80] if q else 'no tree query on this path (conditions: %s)' % '; '.join(
+                    '%s=%s' % (show(cn)[:40], t_) for cn, t_, _ in e.state.conds[:2]))
     if ok3:
-        ctx.passed(rid, fi, c3)
+        ctx.passed(rid, fi, c3, '%d return path(s)' % len(exits))
     else:
-        ctx.violation(rid, fi, c3, 'tree query does not receive K / distance_upper_bound: %s'
-                      % (show(q[0])[:100] if q else 'no query'))
+        ctx.violation(rid, fi, c3, why3)
     # loop over K columns
     ok4 = any(ls.kind == 'for' and ls.iter_term == ('call', 'builtins.range', (S('K'),), ())
               for e in exits for ls in e.state.loops)
